@@ -334,6 +334,9 @@ func (m *Monitors) AtFixpoint(ns, name, live string, res ConvergeResult) {
 		return
 	}
 	ctx.Count("C14.fixpoints-judged")
+	if w.HasOverrides {
+		m.atFixpointOverrides(ns, name)
+	}
 	eligible, exist, ready, liveN := 0, 0, 0, 0
 	for _, n := range kit.Nodes(w.S) {
 		if oracle.Eligible(n, &e.Spec.Template.Spec) {
